@@ -11,17 +11,20 @@ L == INSTANCE Layout
    disagreement.  Their semantics is C16's business; here only that the result is plumbed through.
    %O% / %o% stand for the Greek capital / small omega (an exported non-ASCII identifier): TLC's disk-backed state
    queue does not round-trip non-ASCII strings, so the harness substitutes them like the root placeholder. *)
-Ifaces == {"FooBar", "barBaz", "%O%mega", "_hid"}
+\* %C% = two CJK letters: an identifier whose first letter has no case at all; _Shouty: an underscore, then upper case
+Ifaces4 == {"FooBar", "barBaz", "%O%mega", "_hid"}
+Ifaces  == Ifaces4 \cup {"_Shouty", "%C%"}
 Exported == [n \in Ifaces |-> n \in {"FooBar", "%O%mega"}]
 IfKey(n) == CASE n = "FooBar" -> "F" [] n = "barBaz" -> "b" [] n = "%O%mega" -> "O" [] n = "_hid" -> "h"
+              [] n = "_Shouty" -> "S" [] n = "%C%" -> "C"
 DirKey(d) == CASE d = << >> -> "R" [] d = <<"w">> -> "r" [] d = <<"w", "a">> -> "a" [] d = <<"w", "a", "b">> -> "b"
                [] d = <<"w", "k">> -> "k" [] OTHER -> "n"
 
-Lower      == [n \in Ifaces |-> CASE n = "FooBar" -> "foobar" [] n = "barBaz" -> "barbaz" [] n = "%O%mega" -> "%o%mega" [] n = "_hid" -> "_hid"]
-Upper      == [n \in Ifaces |-> CASE n = "FooBar" -> "FOOBAR" [] n = "barBaz" -> "BARBAZ" [] n = "%O%mega" -> "%O%MEGA" [] n = "_hid" -> "_HID"]
-FirstLower == [n \in Ifaces |-> CASE n = "FooBar" -> "fooBar" [] n = "barBaz" -> "barBaz" [] n = "%O%mega" -> "%o%mega" [] n = "_hid" -> "_hid"]
+Lower      == [n \in Ifaces |-> CASE n = "FooBar" -> "foobar" [] n = "barBaz" -> "barbaz" [] n = "%O%mega" -> "%o%mega" [] n = "_hid" -> "_hid" [] n = "_Shouty" -> "_shouty" [] n = "%C%" -> "%C%"]
+Upper      == [n \in Ifaces |-> CASE n = "FooBar" -> "FOOBAR" [] n = "barBaz" -> "BARBAZ" [] n = "%O%mega" -> "%O%MEGA" [] n = "_hid" -> "_HID" [] n = "_Shouty" -> "_SHOUTY" [] n = "%C%" -> "%C%"]
+FirstLower == [n \in Ifaces |-> CASE n = "FooBar" -> "fooBar" [] n = "barBaz" -> "barBaz" [] n = "%O%mega" -> "%o%mega" [] n = "_hid" -> "_hid" [] n = "_Shouty" -> "_Shouty" [] n = "%C%" -> "%C%"]
 Snake      == [n \in Ifaces |-> CASE n = "FooBar" -> "foo_bar" [] n = "barBaz" -> "bar_baz" [] OTHER -> UNSPECVAL]
-FirstUpper == [n \in Ifaces |-> CASE n = "FooBar" -> "FooBar" [] n = "barBaz" -> "BarBaz" [] n = "%O%mega" -> "%O%mega" [] n = "_hid" -> "_hid"]
+FirstUpper == [n \in Ifaces |-> CASE n = "FooBar" -> "FooBar" [] n = "barBaz" -> "BarBaz" [] n = "%O%mega" -> "%O%mega" [] n = "_hid" -> "_hid" [] n = "_Shouty" -> "_Shouty" [] n = "%C%" -> "%C%"]
 Kebab      == [n \in Ifaces |-> CASE n = "FooBar" -> "foo-bar" [] n = "barBaz" -> "bar-baz" [] OTHER -> UNSPECVAL]
 \* operands chosen so that each function differs from its nearest neighbour on at least one interface name:
 \*   trimSuffix "za" / trimPrefix "ab" leave every name alone, trimRight "za" / trimLeft "ab" (cutsets) would not
@@ -76,7 +79,7 @@ Base(tag) ==
    schema     |-> <<Var("Template"), Lit(".schema.json")>>]
 
 \* --- binding family: every documented variable, one layout-sensitive variable per shape -----------------
-BindingIds == {"B0", "B1", "B2", "B3", "B4", "B5", "B6", "B7"}
+BindingIds == {"B0", "B1", "B2", "B3", "B4", "B5", "B6", "B7", "B8"}
 BindingShape(sid, tag) ==
   CASE sid = "B0" -> Base(tag)
     [] sid = "B1" -> [Base(tag) EXCEPT !.dir = <<Var("ConfigDir"), Lit("/out/" \o tag)>>]
@@ -91,6 +94,7 @@ BindingShape(sid, tag) ==
                                       !.pkgname = <<Pipe("InterfaceName", "lower")>>,
                                       !.structname = <<Pipe("Mock", "lower"), Lit("S"), Pipe("InterfaceName", "firstLower"),
                                                        Pipe("InterfaceName", "trimBaz"), Pipe("InterfaceName", "upper")>>]
+    [] sid = "B8" -> [Base(tag) EXCEPT !.dir = <<Var("InterfaceDir"), Lit("/../sib_" \o tag \o "/./x")>>]   \* a result with .. and .
     [] sid = "B7" -> [Base(tag) EXCEPT !.dir = <<Lit("out/" \o tag \o "/"), Pipe("SrcPackagePath", "repl1")>>,
                                       !.filename = <<Pipe("InterfaceName", "kebabcase"), Lit("_"), Pipe("InterfaceFile", "baseTrimGo"), Lit(".go")>>,
                                       !.pkgname = <<Pipe("InterfaceName", "trimPreAb"), Lit("_"), Pipe("InterfaceName", "trimSufZa")>>,
@@ -130,6 +134,8 @@ SChoice(x) ==
     [] x = "s7" -> <<Q(<<Q(<<Q(<<Q(<<Lit("D"), Var("InterfaceName")>>)>>)>>)>>)>>   \* four levels
     [] x = "s8" -> <<Q(<<Lit("Y"), Var("StructName")>>)>>                    \* grows every second pass
     [] x = "s9" -> <<Lit("S"), Pipe("InterfaceName", "upper")>>
+    [] x = "sB" -> <<Lit("B"), Bad, Lit("x")>>                                \* invalid template syntax
+    [] x = "sQ" -> <<Q(<<Lit("Q"), Bad>>), Var("InterfaceName")>>            \* ... that only appears after one pass
 FChoice(x, tag) ==
   CASE x = "f0" -> <<Lit("mock.go")>>
     [] x = "f1" -> <<Var("StructName"), Lit(".go")>>                         \* reference to another templated value
@@ -149,7 +155,7 @@ TChoice(x, tag) ==
     [] x = "t2" -> <<Q(<<Var("Template")>>), Lit(".schema.json")>>
     [] x = "t3" -> <<Q(<<Q(<<Q(<<Var("Template")>>)>>)>>), Lit(".schema.json")>>   \* still changing when the rest is stable
 
-SIds == {"s0", "s1", "s2", "s3", "s4", "s5", "s6", "s7", "s8", "s9"}
+SIds == {"s0", "s1", "s2", "s3", "s4", "s5", "s6", "s7", "s8", "s9", "sB", "sQ"}
 FIds == {"f0", "f1", "f2", "f3"}
 PIds == {"p0", "p1", "p2"}
 DIds == {"d0", "d1", "d2"}
@@ -206,7 +212,7 @@ ResInit(layouts, ifaces, dirs, ss, fs, ps, ds, ts) ==
 
 \* through the built-in testify template (values must be Go identifiers / file names)
 TestifyInit(layouts, ifaces, dirs) ==
-  \E l \in layouts, d \in dirs, n \in ifaces \ {"_hid"}, sid \in {"T0", "T1"} :
+  \E l \in layouts, d \in dirs, n \in ifaces \ {"_hid", "_Shouty"}, sid \in {"T0", "T1"} :
       InitWith(MkCase(l, d, n, sid, "testify",
           [Base(sid \o IfKey(n) \o DirKey(d)) EXCEPT
               !.structname = IF sid = "T0" THEN <<Var("Mock"), Var("InterfaceName")>>
@@ -227,17 +233,17 @@ InitQuick ==
   \/ DeepInit(HomeW, {"barBaz"}, {<<"w", "k">>})
   \/ ResInit(HomeW, {"FooBar", "barBaz"}, {<<"w", "a">>}, SIds, FIds, {"p0", "p2"}, {"d0", "d1"}, {"t0", "t1"})
   \/ ResInit(HomeA, {"%O%mega", "_hid"}, {<<"w", "k">>}, SIds, {"f0", "f1"}, PIds, {"d0", "d2"}, {"t0", "t2"})
-  \/ TestifyInit({l \in HomeLayouts : l.mode = "search_yml"}, Ifaces, {<<"w", "a", "b">>})
+  \/ TestifyInit({l \in HomeLayouts : l.mode = "search_yml"}, Ifaces4, {<<"w", "a", "b">>})
 
 \* --- thorough: everything
 InitThorough ==
-  \/ BindingInit(L!AllLayouts, Ifaces, {<<"w", "a", "b">>, <<"w">>}, BindingIds)
+  \/ BindingInit(L!AllLayouts, Ifaces4, {<<"w", "a", "b">>, <<"w">>}, BindingIds)
   \/ BindingInit(HomeLayouts, Ifaces, AllDirs, BindingIds)
-  \/ ResInit(HomeW, Ifaces, {<<"w", "a">>}, SIds, FIds, PIds, DIds, TIds)
+  \/ ResInit(HomeW, Ifaces4, {<<"w", "a">>}, SIds, FIds, PIds, DIds, TIds)
   \/ ResInit(HomeLayouts \ HomeW, {"FooBar", "_hid"}, {<<"w", "k">>}, SIds, FIds, PIds, DIds, TIds)
-  \/ TestifyInit(HomeLayouts, Ifaces, AllDirs)
-  \/ LagInit(HomeLayouts, Ifaces, AllDirs)
-  \/ DeepInit(HomeLayouts, Ifaces, {<<"w", "k">>, <<"w">>})
+  \/ TestifyInit(HomeLayouts, Ifaces4, AllDirs)
+  \/ LagInit(HomeLayouts, Ifaces4, AllDirs)
+  \/ DeepInit(HomeLayouts, Ifaces4, {<<"w", "k">>, <<"w">>})
 
 \* --- tiny: for the liveness check and the interleaved (Go map order) check
 InitTiny == ResInit(HomeW, {"FooBar"}, {<<"w", "a">>}, SIds, FIds, {"p0", "p2"}, {"d0", "d2"}, {"t0", "t2"})
@@ -249,6 +255,7 @@ SpecTinyQuick == InitTinyQuick /\ [][Next]_vars /\ WF_vars(Next)
 
 -----------------------------------------------------------------------------
 (* Layout.tla's own claims, evaluated over every layout (ASSUME = checked once by TLC at start-up) *)
+ASSUME PrintT(<<"SPELLINGS", ToJson(Spellings)>>)
 ASSUME \A l \in L!AllLayouts : L!RealConfigIsUsed(l)
 ASSUME \A l \in L!AllLayouts : L!NoKnownDeviation(l)
 \* vacuity: config found above the cwd, given explicitly elsewhere, undocumented relative dir, both names, flag+env
